@@ -49,10 +49,17 @@ def not_analysable(cls, entries):
         if not isinstance(call, ast.Call) or call.args or any(kw.arg is None for kw in call.keywords): return False
         return all(literal(kw.value) if isinstance(kw.value, ast.Call) else True for kw in call.keywords)
     if len(rets) != 1 or not literal(rets[0].value) or len(m.body) > 2: return f"{k}.solver_state is not a single literal constructor expression"
-    k, m = lookup(cls, "_restore_state_from_checkpoint")
-    for st in m.body:
-        if isinstance(st, ast.Expr) and isinstance(st.value, ast.Constant): continue       # docstring
-        if not (isinstance(st, ast.Assign) and len(st.targets) == 1 and is_self_attr(st.targets[0])): return f"{k}._restore_state_from_checkpoint is not a sequence of plain attribute assignments"
+    after = None
+    while True:
+        k, m = lookup(cls, "_restore_state_from_checkpoint", after=after)
+        if m is None: break
+        arg = m.args.args[1].arg; up = False
+        for st in m.body:
+            if isinstance(st, ast.Expr) and isinstance(st.value, ast.Constant): continue       # docstring
+            if _is_super_restore(st, arg): up = True; continue
+            if not (isinstance(st, ast.Assign) and len(st.targets) == 1 and is_self_attr(st.targets[0])): return f"{k}._restore_state_from_checkpoint is not a sequence of plain attribute assignments (and super() calls)"
+        if not up: break
+        after = k
     return None
 
 def mro(c):
@@ -103,9 +110,16 @@ def state_paths(cls):
             else: out[prefix + (kw.arg,)] = None
     rec(ret, ())
     return out
-def restore_map(cls):
-    """attribute assigned -> path read from the restored tree"""
-    k, m = lookup(cls, "_restore_state_from_checkpoint"); arg = m.args.args[1].arg; out = {}
+def _is_super_restore(st, arg):
+    """`super()._restore_state_from_checkpoint(<arg>)` as an expression statement"""
+    c = st.value if isinstance(st, ast.Expr) else None
+    return (isinstance(c, ast.Call) and isinstance(c.func, ast.Attribute) and c.func.attr == "_restore_state_from_checkpoint" and isinstance(c.func.value, ast.Call)
+            and isinstance(c.func.value.func, ast.Name) and c.func.value.func.id == "super" and len(c.args) == 1 and isinstance(c.args[0], ast.Name) and c.args[0].id == arg and not c.keywords)
+def restore_map(cls, after=None):
+    """attribute assigned -> path read from the restored tree (following super()._restore_state_from_checkpoint(state) up the hierarchy)"""
+    k, m = lookup(cls, "_restore_state_from_checkpoint", after=after); arg = m.args.args[1].arg; out = {}
+    for st in m.body:
+        if _is_super_restore(st, arg): out.update(restore_map(cls, after=k))
     for n in ast.walk(m):
         if isinstance(n, ast.Assign) and len(n.targets) == 1 and is_self_attr(n.targets[0]):
             path = []; v = n.value
